@@ -37,6 +37,55 @@ def run(chk: Check, proj: Project) -> None:
     s1(chk, proj, m)
     s2(chk, proj, m)
     s3(chk, proj, m)
+    s4(chk, proj, m)
+
+
+def s4(chk: Check, proj: Project, m) -> None:
+    chk.rule("S4", "every class gets its OWN descriptor for every lazy attribute (the descriptor closes over the class); the `resolved` flag is stored only when nothing that can fail or that still fills the record follows")
+    f = m.func("_setup_lazy_media_resolve")
+    chk.analysed(fkey(m, f))
+    cls_p = params(f)[0]
+    loops = [x for x in f.body if isinstance(x, ast.For)]
+    inst = None
+    for lp in loops:
+        okf, it = proj.try_fold(m, lp.iter)
+        if okf and "media" in set(it):
+            inst = lp
+    if inst is None:
+        chk.undecided("S4", "component_media:_setup_lazy_media_resolve:install-loop", m.loc(f), "loop over COMP_MEDIA_LAZY_ATTRS at function level not found")
+    else:
+        v = norm(inst.target)
+        sets = [c for c in ast.walk(inst) if isinstance(c, ast.Call) and norm(c.func) == "setattr" and len(c.args) == 3 and norm(c.args[0]) == cls_p and norm(c.args[1]) == v]
+        direct = [c for c in sets if enclosing_stmt(c) in inst.body]
+        jumps = [x for x in ast.walk(inst) if isinstance(x, (ast.Continue, ast.Break, ast.Return))]
+        ok = bool(direct) and not jumps
+        chk.ob("S4", "component_media:_setup_lazy_media_resolve:own-descriptor-for-every-attr", m.loc(jumps[0]) if jumps else m.loc(inst), ok,
+               f"setattr({cls_p}, {v}, <descriptor>) runs for every lazy attribute of every class" if ok else
+               "the descriptor is not installed for every lazy attribute of every class: a class that skips it inherits its parent's descriptor, which is bound to the PARENT, so `.media` (or template/js/css) of a class with several bases returns only the nearest ancestor's value")
+        # the descriptor resolves against the class being set up, not against the class it is read through
+        g = next((x for x in f.body if isinstance(x, ast.FunctionDef)), None)
+        if g is not None:
+            cs = [c for c in ast.walk(g) if isinstance(c, ast.Call) and last_attr(c.func) in ("_get_comp_cls_media", "_get_comp_cls_attr")]
+            okc = len(cs) >= 2 and all(c.args and norm(c.args[0]) == cls_p for c in cs)
+            chk.ob("S4", "component_media:_setup_lazy_media_resolve:getter-bound-to-own-class", m.loc(g), okc, f"the getter resolves against `{cls_p}`")
+    r = m.func("_resolve_media")
+    chk.analysed(fkey(m, r))
+    cfg = CFG(r)
+    rec = params(r)[1]
+    stores = [st for st in stmts(r) if isinstance(st, ast.Assign) and norm(st.targets[0]) == f"{rec}.resolved" and norm(st.value) == "True"]
+    chk.floor("S4", len(stores), 2)
+    for st in stores:
+        n0 = cfg.node_containing(st)
+        later = []
+        for n in cfg.reachable_from(n0, labels={"n", "T", "F", "b"}):
+            a = n.ast
+            if a is None or a is st or n in n0 or n.kind in ("with_exit", "handler", "def"):
+                continue
+            if any(isinstance(c, ast.Call) for c in ast.walk(a)) or (isinstance(a, ast.Assign) and any(norm(t).startswith(rec + ".") for t in a.targets)):
+                later.append(a)
+        chk.ob("S4", f"component_media:_resolve_media:resolved-is-last@{'early' if st is stores[0] and len(stores) > 1 else 'end'}", m.loc(later[0]) if later else m.loc(st), not later,
+               "no call and no store into the record can follow `resolved = True`" if not later else
+               f"`{short(later[0])}` runs after the record was flagged resolved: if it raises (a file not on disk yet) the class stays flagged and every later access silently returns None / unresolved values; a concurrent reader sees a half-filled record")
 
 
 def _rstrip_sites(tree: ast.AST) -> List[ast.Call]:
